@@ -45,16 +45,59 @@ def recurrence_lemma(src_transform=None):
     if src_transform:
         src = src_transform(src)
     fn = next(n for n in ast.walk(ast.parse(src)) if isinstance(n, ast.AsyncFunctionDef) and n.name == "_reconnect")
-    assigns = [n for n in ast.walk(fn) if isinstance(n, ast.Assign) and len(n.targets) == 1 and isinstance(n.targets[0], ast.Name) and n.targets[0].id == "interval"]
+    init_nodes = [n for n in ast.walk(fn) if isinstance(n, ast.Assign) and len(n.targets) == 1 and isinstance(n.targets[0], ast.Name)
+                  and n.targets[0].id == "interval" and isinstance(n.value, ast.Constant)]
     errors, violations = [], []
-    if len(assigns) != 2 or not isinstance(assigns[0].value, ast.Constant):
-        return {"obligations": 0, "errors": ["expected `interval = <literal>` and one update of interval in _reconnect, found %d assignments" % len(assigns)]}
-    init = float(assigns[0].value.value)
+    if len(init_nodes) != 1:
+        return {"obligations": 0, "errors": ["expected exactly one `interval = <literal>` in _reconnect, found %d" % len(init_nodes)]}
+    init = float(init_nodes[0].value.value)
     i = z3.Real("interval")
+
+    def lift_cond(c):
+        if isinstance(c, ast.Compare) and len(c.ops) == 1:
+            a, b = lift(c.left, i), lift(c.comparators[0], i)
+            return {ast.Lt: a < b, ast.LtE: a <= b, ast.Gt: a > b, ast.GtE: a >= b, ast.Eq: a == b, ast.NotEq: a != b}[type(c.ops[0])]
+        raise ValueError("condition outside the liftable fragment: %s" % ast.dump(c))
+
+    def update_of(stmt, cur):
+        """value of `interval` after stmt, given its value before (z3 term); None if stmt does not touch it"""
+        if isinstance(stmt, ast.Assign) and len(stmt.targets) == 1 and isinstance(stmt.targets[0], ast.Name) and stmt.targets[0].id == "interval":
+            return z3.substitute(lift(stmt.value, i), (i, cur))
+        if isinstance(stmt, ast.AugAssign) and isinstance(stmt.target, ast.Name) and stmt.target.id == "interval":
+            v = lift(stmt.value, i)
+            v = z3.substitute(v, (i, cur))
+            return {ast.Mult: cur * v, ast.Add: cur + v, ast.Sub: cur - v, ast.Div: cur / v}[type(stmt.op)]
+        if isinstance(stmt, ast.If):
+            touched = [x for x in ast.walk(stmt) if (isinstance(x, ast.Assign) and any(isinstance(t, ast.Name) and t.id == "interval" for t in x.targets))
+                       or (isinstance(x, ast.AugAssign) and isinstance(x.target, ast.Name) and x.target.id == "interval")]
+            if not touched:
+                return None
+            cond = z3.substitute(lift_cond(stmt.test), (i, cur))
+            a = b = cur
+            for st_ in stmt.body:
+                u = update_of(st_, a)
+                a = a if u is None else u
+            for st_ in stmt.orelse:
+                u = update_of(st_, b)
+                b = b if u is None else u
+            return z3.If(cond, a, b)
+        return None
+
+    # the statements of the retry loop body that update `interval`, in source order (the initial literal excluded)
+    loop = next((n for n in ast.walk(fn) if isinstance(n, ast.While)), None)
+    if loop is None:
+        return {"obligations": 0, "errors": ["no retry loop found in _reconnect"]}
+    nxt, n_updates = i, 0
     try:
-        nxt = lift(assigns[1].value, i)
-    except ValueError as e:
+        for stmt in loop.body:
+            u = update_of(stmt, nxt)
+            if u is not None:
+                nxt, n_updates = u, n_updates + 1
+    except (ValueError, KeyError) as e:
         return {"obligations": 0, "errors": [str(e)]}
+    if n_updates == 0:
+        return {"obligations": 0, "errors": ["the retry loop does not update `interval` at its top level"]}
+    update_src = "; ".join(ast.unparse(st_) for st_ in loop.body if update_of(st_, i) is not None)
     obligations = {
         "back-off: the next delay never exceeds 60 s": nxt <= 60,
         "back-off: the delay never degenerates (next >= 0.75 s)": nxt >= z3.RealVal("0.75"),
@@ -89,7 +132,7 @@ def recurrence_lemma(src_transform=None):
         if law_ok:
             errors.append("lemma violated on the lifted expression but the real coroutine sleeps %r" % (sleeps[:6],))
             violations = []
-    return {"obligations": n, "initial_interval": init, "update": ast.unparse(assigns[1].value), "errors": errors, "violations": violations}
+    return {"obligations": n, "initial_interval": init, "update": update_src, "errors": errors, "violations": violations}
 
 
 # ------------------------------------------------------------------ hand-driving the real coroutine
@@ -315,6 +358,42 @@ def reconnect_unit(M, K, nhosts):
     return h
 
 
+def long_outage_unit(M, K):
+    """K consecutive failures of one kind: the complete trajectory of the back-off from its literal start to beyond the cap"""
+    kinds = [o for o in OUTCOMES if o not in ("success", "authentication-error", "wrong-id-marks-address")]
+
+    def h(ex):
+        kind = ex.choice("failure", kinds)
+        c = new_conn(M, ["10.0.0.1"])
+        sleeps, st = [], {"i": 0}
+
+        async def once():
+            st["i"] += 1
+            if st["i"] > K:
+                return None
+            exc = {"refused": X.ConnectionError, "timeout": X.TimeoutError, "peer-closed": X.AccessoryDisconnectedError, "http-4xx": X.HttpErrorResponse,
+                   "wrong-id-marks-nothing": X.IncorrectPairingIdError, "bad-signature": X.InvalidSignatureError, "unexpected": ValueError}[kind]
+            raise exc("x")
+
+        c._connect_once = once
+        with Patched(M, sleeps.append):
+            coro = c._reconnect()
+            try:
+                coro.send(None)
+                end = "suspended"
+            except StopIteration:
+                end = "returned"
+            except Exception as e:
+                end = "raised:" + type(e).__name__
+        ex.require(end == "returned" and st["i"] == K + 1, "long outage: every failure is followed by another attempt until one succeeds")
+        ex.require(sleeps == law(K), "long outage: the k-th back-off sleep is min(60, 0.5 * 1.5^k)")
+        ex.require(all(0 < s_ <= 60 for s_ in sleeps) and all(b >= a for a, b in zip(sleeps, sleeps[1:])), "long outage: delays grow and never exceed 60 s")
+        if sleeps and sleeps[-1] == 60:
+            ex.tag("cap-reached")
+        return ex.observe([end, [round(s_, 4) for s_ in sleeps]])
+    return h
+
+
 # ------------------------------------------------------------------ (c) guards
 CALLS = ["_start_connector", "reconnect_soon", "_start_reconnecting", "_connection_lost"]
 
@@ -402,6 +481,9 @@ def build(tier, mutate=None):
         units.append(Unit("reconnect-loop/K=%d,hosts=%d" % (K, nh), reconnect_unit(C, K, nh), reconnect_unit(R, K, nh), split=True,
                           bounds={"attempts": K, "hosts": nh, "outcomes": OUTCOMES, "wake-up / close during sleep": "symbolic per iteration"},
                           regions=["two-sleeps", "authentication-ends", "success-ends"] + (["immediate-retry"] if nh > 1 else [])))
+    units.append(Unit("reconnect-loop/long-outage/K=16,hosts=1", long_outage_unit(C, 16), long_outage_unit(R, 16),
+                      bounds={"attempts": 16, "failure kind": "one selector for all attempts", "purpose": "the whole back-off trajectory up to and beyond the 60 s cap"},
+                      regions=["cap-reached"]))
     units.append(Unit("guards/one-call-from-arbitrary-state", guard_unit(C), guard_unit(R), split=True,
                       bounds={"call": CALLS, "flags": "closing, closed, transport, protocol, connector state, reconnect future state"},
                       regions=["woken", "restarted"]))
